@@ -101,7 +101,7 @@ class Gen:
         params = r.sample(['aa', 'bb', 'xx', 'pp'], r.randint(0, 3))
         if len(params) >= 2 and r.random() < 0.2:
             params[r.randrange(1, len(params))] = params[0]        # a repeated parameter name: the later position is the binding
-        last = bool(params) and r.random() < 0.35
+        last = (bool(params) and r.random() < 0.35) or (not params and r.random() < 0.3)       # `function f(...):` takes any arguments and binds none
         body = []
         local_names = list(params)
         for _ in range(r.randint(1, 4)):
@@ -122,7 +122,7 @@ class Gen:
                 body.append(log_stmt(call('systemGlobalGet', sq(r.choice(['xx', 'tot', 'nope', 'yy'])), sq('dflt'))))
             elif self.funcs:
                 body.append(('assign', r.choice(['yy', 'rr']), self.call_any(local_names, 1)))
-        if last and r.random() < 0.6:
+        if last and params and r.random() < 0.6:
             # the "..." array is mutated in place and sometimes returned: every call must get a fresh one
             body.append(('expr', call('arrayPush', ('var', params[-1]), self.expr([n for n in local_names if n != params[-1]], 1))))       # (never the array itself: no cycles)
             body.append(log_stmt(call('stringNew', ('var', params[-1]))))
@@ -381,6 +381,23 @@ def compare(prog, src, host):
         for k in user_i:
             if not _same(user_i[k], user_r[k]):
                 raise Violation('final global %s = %r, expected %r' % (k, user_i[k], user_r[k]), d, 'globals-value')
+    # ---- the same options object used for a second run with another globals object (a host that keeps one configuration) -----------------
+    ig2 = {k: copy.deepcopy(v) if isinstance(v, (list, dict)) else v for k, v in host.items()}
+    opts['globals'] = ig2
+    n0 = len(ilog)
+    try:
+        got2 = ('ok', impl.bs.execute_script(model, opts))
+    except impl.bs.RuntimeError as e:
+        got2 = ('runtime-error', 'undefined-function' if 'Undefined function' in str(e) else str(e))
+    except Exception as e:  # pylint: disable=broad-except
+        got2 = ('host-exception', '%s: %s' % (type(e).__name__, e))
+    if got2[0] != got[0] or (got[0] != 'ok' and got2[1] != got[1]) or (got[0] == 'ok' and not _same(got2[1], expected[1])) or ilog[n0:] != rlog:
+        raise Violation('a second run with the same options object and a fresh globals object ends with %r after %d log entries, the first run with %r after %d' % (
+            got2, len(ilog) - n0, got, n0), d, 'second-run-same-options')
+    for name in LIBRARY_NAMES:
+        if name not in ig_before and name not in top and name not in gset and ig2.get(name) is not impl.bs.SCRIPT_FUNCTIONS.get(name):
+            raise Violation('second run with the same options object: library function %s was not added to the new globals object' % name, d,
+                            'library-not-added-second-run')
     return expected, ref.events
 
 
